@@ -67,6 +67,19 @@ Proof.
   rewrite zip_add_assoc. reflexivity.
 Qed.
 
+(* neutral elements: the empty state for +, the vacuum of the same size for merge *)
+Lemma zip_add_vacuum s : zip_add s (repeat 0 (length s)) = s.
+Proof. induction s as [|x s IH]; simpl; [reflexivity|]. rewrite IH, Z.add_0_r. reflexivity. Qed.
+
+Lemma st_neutral (s : state) :
+  st_add s [] = s /\ st_add [] s = s /\
+  st_merge s (repeat 0 (length s)) = Ok s /\ st_merge (repeat 0 (length s)) s = Ok s.
+Proof.
+  assert (M : st_merge s (repeat 0 (length s)) = Ok s).
+  { rewrite <- (zip_add_vacuum s) at 3. apply st_merge_ok. rewrite repeat_length. reflexivity. }
+  repeat split; [apply app_nil_r | exact M | rewrite st_merge_comm; exact M].
+Qed.
+
 (* ---- slicing ---- *)
 Lemma py_slice_length {A} (l : list A) a b :
   length (py_slice l a b) =
